@@ -37,9 +37,18 @@ type c29Case struct {
 	Lines      int `json:"lines,omitempty"`       // lines per writer
 	FlushAfter int `json:"flush_after,omitempty"` // Flush is called once this many "during" writes returned
 	Reps       int `json:"reps,omitempty"`        // the round is repeated (fresh writer each time)
+	// Flush2: 0 Flush is called once; 1 a second Flush follows the first (before
+	// the "post" writers start); 2 a second Flush runs concurrently with the first
+	Flush2 int `json:"flush2,omitempty"`
+	// Slow (all kinds): the harness' sink (underlying writer / monitor) yields the
+	// processor this many times inside every call, which stretches whatever the
+	// code under test does around the call (no sleeping, no timing assumption)
+	Slow int `json:"slow,omitempty"`
 	// kind 1, 2
 	Buf int   `json:"buf,omitempty"`
-	Ops []int `json:"ops,omitempty"` // kind 1: 0 attach, 1 write "…\n", 2 write without newline
+	// kind 1: op%10 = 0 attach a new monitor, 1 write "…\n", 2 write without
+	// newline, 3 register monitor #(op/10 mod monitors) again, 4 deregister it
+	Ops []int `json:"ops,omitempty"`
 	// kind 2
 	Writers  int   `json:"writers,omitempty"`
 	AttachAt []int `json:"attach_at,omitempty"` // attach a monitor once this many writes returned
@@ -66,12 +75,18 @@ func genC29(t *rapid.T) c29Case {
 		// tenths of the "during" writes, middle first (rapid favours the front)
 		c.FlushAfter = c.During * c.Lines * rapid.SampledFrom([]int{5, 3, 7, 2, 8, 1, 9, 0, 10}).Draw(t, "flushafter") / 10
 		c.Reps = rapid.IntRange(1, 4).Draw(t, "reps")
+		c.Flush2 = rapid.SampledFrom([]int{0, 0, 1, 2}).Draw(t, "flush2")
+		c.Slow = rapid.SampledFrom([]int{0, 0, 1, 3}).Draw(t, "slow")
 		return c
 	case 3:
 		c := c29Case{Kind: 1, Buf: rapid.IntRange(1, 64).Draw(t, "buf")}
 		n := rapid.IntRange(1, 150).Draw(t, "nops")
 		for i := 0; i < n; i++ {
-			c.Ops = append(c.Ops, rapid.SampledFrom([]int{1, 1, 1, 1, 2, 0}).Draw(t, "op"))
+			op := rapid.SampledFrom([]int{1, 1, 1, 1, 2, 0, 1, 1, 1, 3, 4, 1}).Draw(t, "op")
+			if op >= 3 {
+				op += 10 * rapid.IntRange(0, 5).Draw(t, "mon")
+			}
+			c.Ops = append(c.Ops, op)
 		}
 		return c
 	default:
@@ -82,6 +97,7 @@ func genC29(t *rapid.T) c29Case {
 		for i := 0; i < na; i++ {
 			c.AttachAt = append(c.AttachAt, c.Writers*c.Lines*rapid.SampledFrom([]int{5, 3, 7, 2, 8, 1, 9, 0, 10}).Draw(t, "attachat")/10)
 		}
+		c.Slow = rapid.SampledFrom([]int{0, 0, 1, 3}).Draw(t, "slow")
 		return c
 	}
 }
@@ -90,22 +106,43 @@ func genC29(t *rapid.T) c29Case {
 type c29Rec struct {
 	mu    sync.Mutex
 	lines []string
+	slow  int
+}
+
+func c29Yield(n int) {
+	for i := 0; i < n; i++ {
+		runtime.Gosched()
+	}
 }
 
 func (r *c29Rec) Write(p []byte) (int, error) {
+	c29Yield(r.slow)
 	r.mu.Lock()
 	r.lines = append(r.lines, string(p))
 	r.mu.Unlock()
+	c29Yield(r.slow)
 	return len(p), nil
+}
+
+// c29Writer is one log producer. Like log.Logger it formats every line into
+// ONE buffer that it reuses for the next line: an io.Writer must not keep the
+// slice it was handed (io.Writer: "Write must not retain p").
+type c29Writer struct{ buf []byte }
+
+func (w *c29Writer) line(s string) []byte {
+	w.buf = append(w.buf[:0], s...)
+	return w.buf
 }
 
 // c29Mon is a log monitor.
 type c29Mon struct {
 	mu    sync.Mutex
 	lines []string
+	slow  int
 }
 
 func (m *c29Mon) HandleLog(s string) {
+	c29Yield(m.slow)
 	m.mu.Lock()
 	m.lines = append(m.lines, s)
 	m.mu.Unlock()
@@ -173,7 +210,7 @@ func bodyC29(c c29Case, x *vkit.Ctx) {
 
 func c29Gated(c c29Case, x *vkit.Ctx) {
 	if c.Pre < 0 || c.During < 0 || c.Post < 0 || c.Pre+c.During+c.Post < 1 || c.Pre+c.During+c.Post > 64 ||
-		c.Lines < 1 || c.Lines > 2000 || c.Reps < 1 || c.Reps > 1000 {
+		c.Lines < 1 || c.Lines > 2000 || c.Reps < 1 || c.Reps > 1000 || c.Flush2 < 0 || c.Flush2 > 2 || c.Slow < 0 || c.Slow > 64 {
 		x.Inconclusive("malformed case")
 		return
 	}
@@ -186,6 +223,10 @@ func c29Gated(c c29Case, x *vkit.Ctx) {
 	}
 	if c.Pre > 0 && c.Post > 0 {
 		x.Label("gated:pre-and-post-writers")
+	}
+	x.Labelf("gated:second-flush=%s", []string{"none", "after", "concurrent"}[c.Flush2])
+	if c.Slow > 0 {
+		x.Label("gated:slow-underlying-writer")
 	}
 	overlapMax := 0
 	for rep := 0; rep < c.Reps; rep++ {
@@ -204,9 +245,19 @@ func c29Gated(c c29Case, x *vkit.Ctx) {
 // one round; returns how many writers had writes on both sides of the Flush
 // call, and whether a violation was reported.
 func c29GatedRound(c c29Case, x *vkit.Ctx) (overlap int, bad bool) {
-	rec := &c29Rec{}
+	rec := &c29Rec{slow: c.Slow}
 	gw := &agent.GatedWriter{Writer: rec}
 	nw := c.Pre + c.During + c.Post
+	// the first Write whose result is not (len(p), nil) although the underlying
+	// writer always returns exactly that
+	var badWrite atomic.Pointer[string]
+	write := func(lw *c29Writer, w, i int) {
+		p := lw.line(c29Line(w, i) + "\n")
+		if n, err := gw.Write(p); n != len(p) || err != nil {
+			s := fmt.Sprintf("Write(%q) = %d, %v", c29Line(w, i)+"\n", n, err)
+			badWrite.CompareAndSwap(nil, &s)
+		}
+	}
 
 	// phase A: pre writers, all done before Flush is called
 	var wg sync.WaitGroup
@@ -216,8 +267,9 @@ func c29GatedRound(c c29Case, x *vkit.Ctx) (overlap int, bad bool) {
 		go func(w int) {
 			defer wg.Done()
 			startA.wait()
+			lw := &c29Writer{}
 			for i := 0; i < c.Lines; i++ {
-				gw.Write([]byte(c29Line(w, i) + "\n"))
+				write(lw, w, i)
 			}
 		}(w)
 	}
@@ -237,9 +289,10 @@ func c29GatedRound(c c29Case, x *vkit.Ctx) (overlap int, bad bool) {
 			defer wg.Done()
 			startB.wait()
 			before, after := false, false
+			lw := &c29Writer{}
 			for i := 0; i < c.Lines; i++ {
 				b := flushCalled.Load()
-				gw.Write([]byte(c29Line(w, i) + "\n"))
+				write(lw, w, i)
 				a := flushCalled.Load()
 				duringDone.Add(1)
 				if !b {
@@ -263,21 +316,42 @@ func c29GatedRound(c c29Case, x *vkit.Ctx) (overlap int, bad bool) {
 		}
 		flushCalled.Store(true)
 		gw.Flush()
+		if c.Flush2 == 1 {
+			gw.Flush() // the gate is open and the buffer drained: nothing may come out again
+		}
 		close(flushed)
 	}()
+	partiesB := c.During + 1
+	if c.Flush2 == 2 {
+		partiesB++
+		wg.Add(1)
+		go func() {
+			defer wg.Done()
+			startB.wait()
+			for !flushCalled.Load() {
+				runtime.Gosched()
+			}
+			gw.Flush()
+		}()
+	}
 	for w := c.Pre + c.During; w < nw; w++ {
 		wg.Add(1)
 		go func(w int) {
 			defer wg.Done()
 			<-flushed
+			lw := &c29Writer{}
 			for i := 0; i < c.Lines; i++ {
-				gw.Write([]byte(c29Line(w, i) + "\n"))
+				write(lw, w, i)
 			}
 		}(w)
 	}
-	startB.release(c.During + 1)
+	startB.release(partiesB)
 	wg.Wait()
 	overlap = int(overlapping.Load())
+	if s := badWrite.Load(); s != nil {
+		x.Violationf("gated-write-result", "the underlying writer accepts everything, but %s", *s)
+		return overlap, true
+	}
 
 	// ---- verdict (all goroutines are done; rec is quiescent)
 	out := rec.lines
